@@ -192,7 +192,7 @@ def gen_solve_op(rng, spec, variant, idx, tier):
     opts['offset'] = off
     plan, placed = gen_plan(rng, opts, spec, faults, idx)
     op = {
-        'op': 'solve_period' if rng.random() < 0.35 else 'solve_t',
+        'op': rng.choice(['solve_t'] * 11 + ['solve_period'] * 6 + ['solve1'] * 3),  # solve1: solve(start=label, end=label)
         'np_ints': rng.random() < 0.15,  # positions / counts arrive as NumPy integers, as they do from array arithmetic
         't': t,
         'form': rng.choice([0, 0, 1]),
@@ -225,7 +225,7 @@ def generate(rng, idx, tier, variant):
         who = rng.randrange(2) if two else 0
         for o in new_ops:
             o['obj'] = who
-            if o['op'] in ('solve_t', 'solve_period'):
+            if o['op'] in ('solve_t', 'solve_period', 'solve1'):
                 # history: re-solve the period of the previous call (after a failure, a skip, a success) now and then
                 if last_t is not None and rng.random() < 0.35:
                     o['t'] = last_t
@@ -381,6 +381,11 @@ def do_solve(m, span, spec, op, endo, check, exo, ctx, step):
         if op['op'] == 'solve_period':
             label = spans.label_forms(spec['span'], span, tn, op.get('form', 0))
             v = m.solve_period(label, **kw)
+        elif op['op'] == 'solve1':
+            label = spans.label_forms(spec['span'], span, tn, op.get('form', 0))
+            v = m.solve(start=label, end=label, **kw)
+            # the multi-period entry point with a one-period range: the period's flag is the third list's only element
+            v = v[2][0] if (isinstance(v, tuple) and len(v) == 3 and len(v[2]) == 1) else ('malformed-result', repr(v)[:80])
         else:
             v = m.solve_t(t_arg, **kw)
         out = {'kind': 'return', 'value': v}
@@ -406,7 +411,7 @@ def do_solve(m, span, spec, op, endo, check, exo, ctx, step):
     }
     prop = 'C02' if call_is_finite(call) else 'C06'
     ctx.count('calls:' + prop)
-    if op['op'] == 'solve_period' and isinstance(out.get('exc'), KeyError) and not ctl.log:
+    if op['op'] in ('solve_period', 'solve1') and isinstance(out.get('exc'), KeyError) and not ctl.log:
         # the label is an element of the span: it must resolve to its position
         ctx.check(prop, f"solve_period/own-label-rejected/span={spec['span']['type']}", False, {'label': repr(label), 'position': tn})
         ctx.log(step, op['op'], t, 'KeyError-on-own-label')
@@ -436,8 +441,8 @@ def do_solve(m, span, spec, op, endo, check, exo, ctx, step):
         ctx.probe('max_iter=0')
     if not check:
         ctx.probe('empty-check-list')
-    if op['op'] == 'solve_period':
-        ctx.probe('solve_period:' + spec['span']['type'])
+    if op['op'] in ('solve_period', 'solve1'):
+        ctx.probe(op['op'] + ':' + spec['span']['type'])
     return call, E
 
 
@@ -515,14 +520,14 @@ def simplify(schedule):
     import copy
 
     for i, op in enumerate(schedule['ops']):
-        if op['op'] in ('solve_t', 'solve_period'):
+        if op['op'] in ('solve_t', 'solve_period', 'solve1'):
             for key, val in (('offset', 0), ('min_iter', 0), ('failures', 'ignore'), ('catch_first_error', False)):
                 if op['opts'].get(key) != val:
                     c = copy.deepcopy(schedule)
                     c['ops'][i]['opts'][key] = val
                     if key == 'min_iter' or c['ops'][i]['opts']['min_iter'] <= c['ops'][i]['opts']['max_iter']:
                         yield c
-            if op['op'] == 'solve_period':
+            if op['op'] in ('solve_period', 'solve1'):
                 c = copy.deepcopy(schedule)
                 c['ops'][i]['op'] = 'solve_t'
                 yield c
